@@ -241,6 +241,8 @@ class FakeSnowflakeCursor:
             )
 
         sql = transformed.sql(dialect="duckdb")
+        # the statement description describes: without the seed prefix, whose result is not the statement's
+        describable_sql = sql
 
         if transformed.find(exp.Select) and (seed := transformed.args.get("seed")):
             sql = f"SELECT setseed({seed}); {sql}"
@@ -367,7 +369,7 @@ class FakeSnowflakeCursor:
         self._arrow_table = self._duck_conn.fetch_arrow_table()
         self._rowcount = self._arrow_table.num_rows if affected_count is None else affected_count
 
-        self._last_sql = result_sql or sql
+        self._last_sql = result_sql or describable_sql
         self._last_params = params
 
     def _log_sql(self, sql: str, params: Sequence[Any] | dict[Any, Any] | None = None) -> None:
